@@ -205,6 +205,10 @@ func (d *Driver) runChunk(exe string, cases []Case, results []Result, o RunOpts)
 		}
 		// Abnormal end. "begun" is the index journalled BEGIN without END (or -1).
 		tail := tailFile(stderrFile, 6000)
+		if t2 := tailFile(filepath.Join(dir, "fd2.txt"), 6000); t2 != "" {
+			// a check that redirects fd 2 around a run (C01, C14) gets the crash report there
+			tail += "\n[fd 2 capture]\n" + t2
+		}
 		code := -1
 		if ee, ok := err.(*exec.ExitError); ok {
 			code = ee.ExitCode()
@@ -304,6 +308,22 @@ func (d *Driver) Judge(c Case, r Result) {
 	}
 	if r.Races > 0 {
 		d.T.Count("race_reports", int64(r.Races))
+		if strings.Contains(r.Race, "github.com/open2b/scriggo") {
+			// a data race with a scriggo frame is a violation of its own, whatever the case's verdict
+			sig := RaceSignature(r.Race)
+			d.violMu.Lock()
+			seen := d.violSeen["race:"+sig]
+			d.violSeen["race:"+sig] = true
+			d.violMu.Unlock()
+			d.T.Sig("race:" + sig)
+			if !seen {
+				rc := c
+				rc.ID = c.ID + "/race"
+				d.ReportViolation(rc, Result{ID: rc.ID, Status: Violation, Detail: "the race detector reported a data race with scriggo frames while running this case\n" + r.Race, Race: r.Race, Races: r.Races})
+			}
+		} else {
+			d.T.Count("race_reports_without_scriggo_frame", int64(r.Races))
+		}
 	}
 	switch r.Status {
 	case OK:
